@@ -240,7 +240,10 @@ def run():
     from concurrent.futures import ThreadPoolExecutor
     from props import _mset
     l2pool = ThreadPoolExecutor(max_workers=2)
-    l2jobs = [l2pool.submit(_matcher.check, chk, t, rng("c04-matcher"), mixed), l2pool.submit(_mset.check, chk, t, rng("c04-mset"), mixed)]
+    # (the real runs are recorded here, in the main thread - the watchdog needs it; TLC does the rest in worker threads)
+    mrecs = _matcher.prepare(chk, t, rng("c04-matcher"), mixed)
+    srecs = _mset.prepare(chk, t, rng("c04-mset"), mixed)
+    l2jobs = [l2pool.submit(_matcher.finish, chk, t, *mrecs), l2pool.submit(_mset.finish, chk, t, *srecs)]
     # the multiset edit over scripted elements (L2 model: spec/MultiSet.tla, bound by MultiSetTrace.tla)
     from props import _mset
     n_mset = 0
